@@ -12,6 +12,8 @@ pub mod iter;
 pub mod read_only_db;
 pub mod snapshot;
 pub mod transaction;
+#[cfg(feature = "verif-hooks")]
+pub mod verif_hook;
 pub mod write_batch;
 
 #[cfg(test)]
